@@ -153,6 +153,11 @@ func checkC07(c *Ctx) {
 	checkClosureComparators(c, pkgs)
 	checkInvertedTables(c, pkgs)
 	checkSymmetricRename(c, pkgs)
+	for _, pk := range pkgs {
+		if pk.Name == "generator" {
+			checkPlanningOrder(c, "C07.R1.planning-order", pk)
+		}
+	}
 	// the spec path rendered into generated code (go:generate comment) is the user's, never the
 	// path of a temporary copy
 	for _, pk := range pkgs {
@@ -1026,4 +1031,134 @@ func checkTemplateMapOrder(c *Ctx, rule string, ev *tmpl.Evaluator) {
 	if n == 0 {
 		c.Ok(rule, "templates › no map is listed with keys / values", "", fmt.Sprintf("%d template trees read", len(ev.F.Trees)))
 	}
+}
+
+// checkPlanningOrder: planning a model or an operation can write into the loaded document (an
+// anonymous struct lifted as a definition, validations moved), and what is planned next reads
+// that document. A loop that plans in map order makes the content of the generated files depend on
+// it, however the results are sorted afterwards.
+func checkPlanningOrder(c *Ctx, rule string, gen *packages.Package) {
+	c.Rule(rule, "no range over a map in the generator calls (transitively, static calls of the package) a function that adds to the definitions of the loaded document and a function that reads them all (discriminatorInfo)", 0)
+	// (clearing the validations that do not fit a schema's type gives the same schema whoever does it first:
+	// only additions to the definitions matter here)
+	reach, n := documentWriterReach(gen, false)
+	if reach == nil {
+		c.Unk(rule, "writers into the loaded document", "", fmt.Sprintf("%d writer functions found", n))
+		return
+	}
+	info := gen.TypesInfo
+	// readers of the whole set of definitions: the subtypes of a discriminated type are looked up in a fresh
+	// analysis of the document
+	readers := reachWithin(gen, func(d *ast.FuncDecl) string {
+		w := ""
+		ast.Inspect(d.Body, func(n ast.Node) bool {
+			if call, ok := n.(*ast.CallExpr); ok {
+				if fn := goan.Callee(info, call); fn != nil {
+					if fn.Name() == "discriminatorInfo" && fn.Pkg() == gen.Types {
+						w = "reads every definition: discriminatorInfo"
+					}
+				}
+			}
+			return true
+		})
+		return w
+	})
+	hits := 0
+	for _, fd := range load.AllFuncs(gen) {
+		if fd.Body == nil {
+			continue
+		}
+		ast.Inspect(fd.Body, func(nd ast.Node) bool {
+			rs, ok := nd.(*ast.RangeStmt)
+			if !ok {
+				return true
+			}
+			t := info.TypeOf(rs.X)
+			if t == nil {
+				return true
+			}
+			if _, isMap := t.Underlying().(*types.Map); !isMap {
+				return true
+			}
+			why, reads := "", ""
+			ast.Inspect(rs.Body, func(m ast.Node) bool {
+				if call, ok := m.(*ast.CallExpr); ok {
+					if cal := goan.Callee(info, call); cal != nil && cal.Pkg() == gen.Types {
+						if r := reach(cal, map[*types.Func]bool{}); r != "" && why == "" {
+							why = cal.Name() + " → " + r
+						}
+						if r := readers(cal); r != "" && reads == "" {
+							reads = cal.Name() + " → " + r
+						}
+					}
+				}
+				return true
+			})
+			// an addition to the definitions only matters to an iteration that looks at all of them
+			if why == "" || reads == "" {
+				return true
+			}
+			why += "; and " + reads
+			hits++
+			c.Bad(rule, fmt.Sprintf("generator.%s › range %s plans in map order", load.FuncName(fd), goan.ExprString(rs.X)), c.posOf(gen, rs.Pos()),
+				fmt.Sprintf("the loop ranges over a map and calls %s: what one iteration writes into the document is read by the iterations that follow, so the generated code depends on the iteration order (plan over sorted names)", why))
+			return true
+		})
+	}
+	if hits == 0 {
+		c.Ok(rule, "generator › planning loops run over sorted names", "", fmt.Sprintf("%d document writers, none reached from a map range", n))
+	}
+}
+
+// reachWithin: reach(f) = a path from f, through static calls inside the package, to a function for
+// which seed answers non-empty ("" when there is none).
+func reachWithin(pk *packages.Package, seed func(d *ast.FuncDecl) string) func(f *types.Func) string {
+	info := pk.TypesInfo
+	decls := map[*types.Func]*ast.FuncDecl{}
+	for _, d := range load.AllFuncs(pk) {
+		if f, ok := info.Defs[d.Name].(*types.Func); ok && d.Body != nil {
+			decls[f] = d
+		}
+	}
+	seeds := map[*types.Func]string{}
+	for f, d := range decls {
+		if w := seed(d); w != "" {
+			seeds[f] = w
+		}
+	}
+	memo := map[*types.Func]string{}
+	var reach func(f *types.Func, seen map[*types.Func]bool) string
+	reach = func(f *types.Func, seen map[*types.Func]bool) string {
+		if w, ok := seeds[f]; ok {
+			return f.Name() + " (" + w + ")"
+		}
+		if r, ok := memo[f]; ok {
+			return r
+		}
+		d := decls[f]
+		if d == nil || seen[f] {
+			return ""
+		}
+		seen[f] = true
+		res := ""
+		ast.Inspect(d.Body, func(n ast.Node) bool {
+			if res != "" {
+				return false
+			}
+			if call, ok := n.(*ast.CallExpr); ok {
+				if cal := goan.Callee(info, call); cal != nil && cal.Pkg() == pk.Types {
+					if r := reach(cal, seen); r != "" {
+						res = cal.Name() + " → " + r
+						if _, isSeed := seeds[cal]; isSeed {
+							res = r
+						}
+					}
+				}
+			}
+			return true
+		})
+		memo[f] = res
+		return res
+	}
+	return func(f *types.Func) string { return reach(f, map[*types.Func]bool{}) }
 }
